@@ -117,7 +117,7 @@ def coef_elem(rng, order, pat):
     raise KeyError(pat)
 
 
-def gen_poly(rng, shape, order, rep=None, pats=None, deriv=False):
+def gen_poly(rng, shape, order, rep=None, pats=None, deriv=False, deriv2=False):
     rep = rep or rng.choice(MREPS)
     n = int(np.prod(shape))
     pats = pats or PATTERNS
@@ -126,6 +126,12 @@ def gen_poly(rng, shape, order, rep=None, pats=None, deriv=False):
          'mask': make_mask(rng, shape, rep), 'mrep': rep}
     if deriv:
         d['dcoef'] = [[float(rng.randint(-2, 2)) for _ in range(order + 1)] for _ in range(n)]
+        if deriv2:
+            # a second derivative whose denominator has two axes (seeded change C20-I: deriv() lined the exponents up
+            # with the first denominator axis)
+            den = rng.choice([(2, 2), (2, 3), (3, 3)])
+            d['dden'] = list(den)
+            d['dcoef2'] = [[[float(rng.randint(-2, 2)) for _ in range(den[0] * den[1])] for _ in range(order + 1)] for _ in range(n)]
     return d
 
 
@@ -160,6 +166,9 @@ def build_poly(d, Pm):
     derivs = {}
     if d.get('dcoef') is not None:
         derivs['t'] = Pm.Polynomial(np.array(d['dcoef'], dtype=float).reshape(shape + (d['order'] + 1,)))
+    if d.get('dcoef2') is not None and not d.get('as_scalar'):
+        derivs['m'] = Pm.Polynomial(np.array(d['dcoef2'], dtype=float).reshape(shape + (d['order'] + 1,) + tuple(d['dden'])),
+                                    drank=2)
     if d.get('as_scalar'):
         # an order-0 operand given as a Scalar (with its derivative): converted by as_polynomial (seeded change C20-G)
         sd = {}
@@ -422,7 +431,8 @@ def gen_cases(rng, tier, focus=()):
             cases.append({'fam': 'ring', 'op': 'neg', 'p': gen_poly(rng, rng.choice(SHAPES), o1, deriv=rng.random() < 0.4),
                           'xs': [rng.choice(XVALS) for _ in range(2)]})
         for _ in range(4 * scale * boost('deriv')):
-            cases.append({'fam': 'ring', 'op': 'deriv', 'p': gen_poly(rng, rng.choice(SHAPES), o1, deriv=rng.random() < 0.4),
+            d2 = rng.random() < 0.4
+            cases.append({'fam': 'ring', 'op': 'deriv', 'p': gen_poly(rng, rng.choice(SHAPES), o1, deriv=d2 or rng.random() < 0.4, deriv2=d2),
                           'xs': [rng.choice(XVALS) for _ in range(2)]})
         for n in range(5):
             for _ in range(2 * scale * boost('pow')):
@@ -594,8 +604,45 @@ def run_ring(c, Pm, rec=None):
         else:
             dobs = observe(r.derivs['t'])
             prob = compare(dobs, dref, mask, dsc, what='d_dt: ', deriv=True)
-    if prob is None and not want_d and obs['dkeys']:
+    if prob is None and not want_d and [k for k in obs['dkeys'] if k != 'm']:
         prob = 'unexpected derivative keys %s' % obs['dkeys']
+    if prob is None and op == 'deriv' and c['p'].get('dcoef2') is not None:
+        # d/dm of p' is the derivative of dp/dm, denominator element by denominator element
+        if 'm' not in r.derivs:
+            prob = 'derivative d_dm missing from the result'
+        else:
+            den = tuple(c['p']['dden'])
+            D = np.array(c['p']['dcoef2'], dtype=float).reshape(tuple(c['p']['shape']) + (c['p']['order'] + 1,) + den)
+            o_ = c['p']['order']
+            want = (D[..., :-1, :, :] * np.arange(o_, 0, -1)[:, None, None]) if o_ > 0 else np.zeros(D.shape)
+            got = np.asarray(r.derivs['m'].values, dtype=float)
+            keep = ~np.broadcast_to(np.asarray(mp), tuple(c['p']['shape']))
+            if got.shape != want.shape:
+                prob = 'd_dm of deriv(): array shape %s, expected %s' % (got.shape, want.shape)
+            elif not np.allclose(got[keep], want[keep], rtol=1e-12, atol=0):
+                prob = 'd_dm of deriv() differs from the derivative of dp/dm'
+    if prob is None and q is not None and number is None and op in ('add', 'sub', 'mul') and hasattr(q, 'eval'):
+        # the in-place form gives the same polynomial, and what it returns is a Polynomial all the way down
+        # (seeded change C20-J: += / -= returned self, with derivatives inherited from the right operand left as Vectors)
+        import operator
+        try:
+            r2 = p.copy()
+            r2 = {'add': operator.iadd, 'sub': operator.isub, 'mul': operator.imul}[op](r2, q)
+        except (ValueError, TypeError):
+            r2 = None               # an in-place operand may not enlarge the target
+        if r2 is not None:
+            obs2 = observe(r2)
+            if obs2['cls'] != 'Polynomial' or list(obs2['shape']) != list(obs['shape']):
+                pass                # the in-place form keeps the target's shape / order: not comparable
+            else:
+                bad = [k for k, dq_ in r2.derivs.items() if type(dq_).__name__ != 'Polynomial']
+                if bad:
+                    prob = 'in-place %s: derivative(s) %s of the result are not Polynomials' % (op, bad)
+                else:
+                    try:
+                        r2.deriv(), r2 * r2, r2.eval(Pm.Scalar(0.5))
+                    except Exception as e:      # noqa
+                        prob = 'in-place %s: the result cannot be used further: %s: %s' % (op, type(e).__name__, str(e)[:80])
     if prob is None and snapshot(p) != snap_p:
         prob = 'operand self was modified'
     if prob is None and q is not None and snapshot(q) != snap_q:
